@@ -489,6 +489,8 @@ def null_from(
         edges = nfa[n]
         if len(edges) == 1 and not edges[0].get("term"):
             return scan(cast(int, edges[0]["to"]))
+        if n in result:
+            return None
         result.append(n)
         for edge in edges:
             term, to = edge.get("term"), edge.get("to")
